@@ -54,7 +54,7 @@ def run(ck, a):
   ck.bounds = {'pipelines': list(pipes), 'models': 'free root + 1-3 links, stack words %s, limits and motor/position/velocity actuators, rotated bodies, offset anchors' % word_sets,
                'state': 'ALL State array fields symbolic and independent (arbitrary, not necessarily consistent) except masses; control symbolic',
                'collision scenes': 'two free bodies, one contact, contact geometry arbitrary symbolic (stubbed contact.get)', 'steps': 'one (inductive)',
-               'rest clause': 'q Tier B (hinge half-angles at exact rational points), slides/root positions symbolic, one step, gravity 0',
+               'rest clause': 'spring and positional only: q Tier B (hinge half-angles at exact rational points), slides/root positions symbolic, one step, gravity 0; generalized not decided',
                'outside': 'world-attached roots (momentum undefined); global velocity damping != 0; several simultaneous contacts on one link (upstream averages impulses per link)'}
   ck.assumptions += ['reals for floats', 'skeleton abstraction of large non-linear sub-terms (sound for unsat)', 'two-body scenes: contact.get stubbed by arbitrary contact geometry']
   replay_models = {}
@@ -97,6 +97,7 @@ def run(ck, a):
         ck.harness_error('%s %s: %s' % (pname, words, ex))
         continue
       ck.traced('%s.pipeline.step' % pname, cj)
+      ck.log('traced momentum %s %s' % (pname, words))
       tag = 'free+' + '.'.join(words)
       replay_models[(pname, tag)] = (xml, None)
       goals = momentum_obs(tag, pname, v2, v1, masses, g, dt)
@@ -181,10 +182,10 @@ def run(ck, a):
     sys_ = mjcf.loads(xml)
     ex = models.exact_params(spec)
     keys = sorted(ex)
-    for pname, mod in list(pipes.items()) + ([('generalized', gp)] if thorough or words == ['h'] else []):
+    for pname, mod in list(pipes.items()):      # the generalized rest clause needs a symbolic 7x7 solve: not within the tiers' time caps (stated in bounds)
       ctx = core.Ctx(fold=True)
       ctx.pair_cos_min = F(27, 50)
-      ctx.lemma_timeout = 2000
+      ctx.lemma_timeout = 250
       q = []
       pre = []
       for b in spec['bodies']:
@@ -214,6 +215,7 @@ def run(ck, a):
         ck.notes.append('rest clause %s %s not encodable: %s' % (pname, words, e2))
         continue
       ck.traced('%s.pipeline.init+step (rest clause)' % pname, cj)
+      ck.log('traced rest %s %s folds=%s' % (pname, words, ctx.fold_stats))
       cells = list(vel.reshape(-1)) + list(dpos.reshape(-1))
       nz = [c for c in cells if not (core.isc(c) and c == 0)]
       frz = Fr.for_ctx(ctx)
@@ -223,7 +225,8 @@ def run(ck, a):
         ck.notes.append('rest clause %s %s: %s' % (pname, words, e3))
         continue
       ck.add(Ob('rest/%s/%s%s' % (pname, 'free+' if free_root else 'world-h+', '.'.join(words)), [frz.formula(s_, _top=False) for s_ in ctx.side] + pre, goal, timeout=120,
-                core=(pname != 'generalized'), meta={'tag': 'rest', 'pipe': pname, 'xml': xml}))
+                core=(pname != 'generalized'), meta={'tag': 'rest', 'pipe': pname, 'xml': xml,
+                      'finding_key': 'rest clause on a link whose stack places a slide after a hinge (upstream limitation, see C08)' if any('hs' in w for w in words) else None}))
 
   # ---- replay / witness search on the real code
   def replay(ob):
